@@ -827,5 +827,6 @@ def run(ctx, rep):
     rule_pair(ctx, rep)
     rule_linecol(ctx, rep)
     rule_tile(ctx, rep)
-    from rules import c05_blank
+    from rules import c05_blank, c05_joinorder
     c05_blank.run(ctx, rep)
+    c05_joinorder.run(ctx, rep)
